@@ -1,8 +1,11 @@
 (* Sympytools.v — mirror of sympytools.rhs_matrix / states_matrix / jacobi_matrix:
+     expanded = {}
+     for x in sorted_assignments: if x is an intermediate: expanded[x] = x.expr.xreplace(expanded)
      rhs = [d.expr for d in sorted_state_derivatives]
-     while any(rhs.has(k) for k in intermediates) and tries < max_tries: rhs = rhs.xreplace(intermediates)
+     while any(rhs.has(k) for k in intermediates) and tries < max_tries: rhs = rhs.xreplace(expanded)
      if tries == max_tries: raise
-   (xreplace substitutes all intermediates simultaneously, once per round), and the Jacobian as the
+   (xreplace substitutes all intermediates simultaneously, once per round; the expansion of the
+   intermediates in dependency order is the repaired behaviour, fix for C20), and the Jacobian as the
    symbolic derivative D of every entry with respect to every state. *)
 From GX Require Import Base Expr Topo Ode Target Sem Schemes.
 Open Scope string_scope.
@@ -16,11 +19,23 @@ Definition inter_subst (o : ode) (x : string) : option expr :=
 
 Definition mentions_inter (o : ode) (e : expr) : bool := existsb (is_inter_name o) (vars e).
 
-Fixpoint rhs_loop (fuel : nat) (o : ode) (es : list expr) (tries : nat) : list expr * nat :=
+(* the dictionary of expanded intermediates, built in the order of sorted_assignments *)
+Definition expand_step (o : ode) (acc : list (string * expr)) (n : string) : list (string * expr) :=
+  match find (fun a => String.eqb (a_name a) n) (o_inters o) with
+  | Some a => acc ++ [(n, subst (fun y => lookup y acc) (a_expr a))]
+  | None => acc
+  end.
+Definition expanded (o : ode) (ord : list string) : list (string * expr) :=
+  fold_left (expand_step o) ord [].
+Definition exp_subst (o : ode) (ord : list string) (x : string) : option expr :=
+  lookup x (expanded o ord).
+
+Fixpoint rhs_loop (fuel : nat) (o : ode) (sb : string -> option expr) (es : list expr) (tries : nat)
+  : list expr * nat :=
   match fuel with
   | O => (es, tries)
   | S f => if existsb (mentions_inter o) es
-           then rhs_loop f o (map (subst (inter_subst o)) es) (S tries)
+           then rhs_loop f o sb (map (subst sb) es) (S tries)
            else (es, tries)
   end.
 
@@ -32,7 +47,7 @@ Definition rhs_init (o : ode) (ord : list string) : list expr :=
 Definition rhs_matrix (o : ode) (max_tries : nat) : option (list expr) :=
   match sorted_names o false with
   | Some ord =>
-      let '(es, n) := rhs_loop max_tries o (rhs_init o ord) 0 in
+      let '(es, n) := rhs_loop max_tries o (exp_subst o ord) (rhs_init o ord) 0 in
       if Nat.eqb n max_tries then None else Some es
   | None => None
   end.
@@ -54,19 +69,44 @@ Section Meaning.
   Hypothesis consistent : forall x a, find (fun a => String.eqb (a_name a) x) (o_inters o) = Some a ->
                                        rho x = eval N rho (a_expr a).
 
-  Lemma subst_round_preserves e : eval N rho (subst (inter_subst o) e) = eval N rho e.
+  (* a substitution whose entries have the value of the name they replace *)
+  Definition sound_subst (sb : string -> option expr) : Prop :=
+    forall x e, sb x = Some e -> rho x = eval N rho e.
+
+  Lemma subst_round_preserves sb e : sound_subst sb -> eval N rho (subst sb e) = eval N rho e.
   Proof.
-    rewrite eval_subst. apply eval_ext. intros x _. unfold inter_subst.
-    destruct (find (fun a => String.eqb (a_name a) x) (o_inters o)) as [a|] eqn:E; [|reflexivity].
-    symmetry. apply consistent. exact E.
+    intros H. rewrite eval_subst. apply eval_ext. intros x _.
+    destruct (sb x) as [e'|] eqn:E; [|reflexivity]. symmetry. apply H. exact E.
   Qed.
 
-  Lemma rhs_loop_preserves fuel : forall es tries,
-    map (eval N rho) (fst (rhs_loop fuel o es tries)) = map (eval N rho) es.
+  Lemma inter_subst_sound : sound_subst (inter_subst o).
   Proof.
-    induction fuel as [|f IH]; intros es tries; simpl; [reflexivity|].
+    intros x e H. unfold inter_subst in H.
+    destruct (find (fun a => String.eqb (a_name a) x) (o_inters o)) as [a|] eqn:E; [|discriminate].
+    injection H as <-. apply consistent. exact E.
+  Qed.
+
+  Lemma expanded_sound ord : sound_subst (exp_subst o ord).
+  Proof.
+    unfold exp_subst, expanded.
+    assert (G : forall acc, sound_subst (fun x => lookup x acc) ->
+                            sound_subst (fun x => lookup x (fold_left (expand_step o) ord acc))).
+    { induction ord as [|n ord IH]; intros acc Hacc; [exact Hacc|]. simpl. apply IH.
+      unfold expand_step.
+      destruct (find (fun a => String.eqb (a_name a) n) (o_inters o)) as [a|] eqn:E; [|exact Hacc].
+      intros x e Hl. rewrite lookup_app in Hl. destruct (lookup x acc) as [e0|] eqn:E0.
+      - injection Hl as <-. apply Hacc. exact E0.
+      - simpl in Hl. destruct (String.eqb_spec x n) as [->|]; [|discriminate]. injection Hl as <-.
+        rewrite (subst_round_preserves _ _ Hacc). apply consistent. exact E. }
+    apply G. intros x e H. discriminate.
+  Qed.
+
+  Lemma rhs_loop_preserves sb fuel : sound_subst sb -> forall es tries,
+    map (eval N rho) (fst (rhs_loop fuel o sb es tries)) = map (eval N rho) es.
+  Proof.
+    intros Hsb. induction fuel as [|f IH]; intros es tries; simpl; [reflexivity|].
     destruct (existsb (mentions_inter o) es); [|reflexivity].
-    rewrite IH, map_map. apply map_ext. apply subst_round_preserves.
+    rewrite IH, map_map. apply map_ext. intros e. apply subst_round_preserves. exact Hsb.
   Qed.
 
   (* every entry of the symbolic right-hand side has the value of the derivative's own expression *)
@@ -76,23 +116,24 @@ Section Meaning.
     map (eval N rho) es = map (eval N rho) (rhs_init o ord).
   Proof.
     unfold rhs_matrix. intros -> H.
-    destruct (rhs_loop max_tries o (rhs_init o ord) 0) as [es' n] eqn:E.
+    destruct (rhs_loop max_tries o (exp_subst o ord) (rhs_init o ord) 0) as [es' n] eqn:E.
     destruct (Nat.eqb n max_tries); [discriminate|]. injection H as <-.
-    pose proof (rhs_loop_preserves max_tries (rhs_init o ord) 0) as P. rewrite E in P. exact P.
+    pose proof (rhs_loop_preserves (exp_subst o ord) max_tries (expanded_sound ord) (rhs_init o ord) 0) as P.
+    rewrite E in P. exact P.
   Qed.
 End Meaning.
 
 (* when the loop stops before the bound, no intermediate is left: every intermediate is expanded *)
-Lemma rhs_loop_tries fuel o : forall es tries, tries <= snd (rhs_loop fuel o es tries) <= tries + fuel.
+Lemma rhs_loop_tries fuel o sb : forall es tries, tries <= snd (rhs_loop fuel o sb es tries) <= tries + fuel.
 Proof.
   induction fuel as [|f IH]; intros es tries; simpl; [lia|].
   destruct (existsb (mentions_inter o) es); simpl; [|lia].
-  specialize (IH (map (subst (inter_subst o)) es) (S tries)). lia.
+  specialize (IH (map (subst sb) es) (S tries)). lia.
 Qed.
 
-Lemma rhs_loop_done fuel o : forall es tries,
-  snd (rhs_loop fuel o es tries) < tries + fuel ->
-  existsb (mentions_inter o) (fst (rhs_loop fuel o es tries)) = false.
+Lemma rhs_loop_done fuel o sb : forall es tries,
+  snd (rhs_loop fuel o sb es tries) < tries + fuel ->
+  existsb (mentions_inter o) (fst (rhs_loop fuel o sb es tries)) = false.
 Proof.
   induction fuel as [|f IH]; intros es tries H; simpl in *; [lia|].
   destruct (existsb (mentions_inter o) es) eqn:E; simpl in *; [|exact E].
@@ -103,9 +144,9 @@ Theorem rhs_matrix_fully_expanded o max_tries es :
   rhs_matrix o max_tries = Some es -> existsb (mentions_inter o) es = false.
 Proof.
   unfold rhs_matrix. destruct (sorted_names o false) as [ord|]; [|discriminate].
-  destruct (rhs_loop max_tries o (rhs_init o ord) 0) as [es' n] eqn:E.
+  destruct (rhs_loop max_tries o (exp_subst o ord) (rhs_init o ord) 0) as [es' n] eqn:E.
   destruct (Nat.eqb_spec n max_tries) as [|Hne]; [discriminate|]. intros [= <-].
-  pose proof (rhs_loop_done max_tries o (rhs_init o ord) 0) as P.
-  pose proof (rhs_loop_tries max_tries o (rhs_init o ord) 0) as Q.
+  pose proof (rhs_loop_done max_tries o (exp_subst o ord) (rhs_init o ord) 0) as P.
+  pose proof (rhs_loop_tries max_tries o (exp_subst o ord) (rhs_init o ord) 0) as Q.
   rewrite E in P, Q. simpl in *. apply P. lia.
 Qed.
